@@ -45,6 +45,8 @@ inductive Ex where
   | bracket (e : Ex)
   | escape (e : Ex)
   | macroExpand (f : Ex) (args : List Ex)
+  | pipeM (arg fn : Ex)          -- BinOp(arg, Op::PipeMacro, fn):  `arg ||> fn`   (front end only)
+  | placeholder                  -- Literal::PlaceHolder `_`                        (front end only)
 deriving Repr, Inhabited
 
 /-- the unit value `()`: what the compiler puts where a `let` has no continuation / an `if` has no `else` -/
@@ -56,6 +58,7 @@ def hasStaging : Ex → Bool
   | .bracket _ => true
   | .escape _ => true
   | .macroExpand _ _ => true
+  | .pipeM a f => hasStaging a || hasStaging f
   | .app f args => hasStaging f || anyStaging args
   | .lam _ b => hasStaging b
   | .letE _ v b => hasStaging v || hasStaging b
@@ -76,6 +79,178 @@ where anyStaging : List Ex → Bool
 
 /-! ## front-end passes that precede staging -/
 
+/-! ### the macro pipe `x ||> f` (`convert_placeholder`, `convert_macro_pipe`, `substitute_macro_arg`)
+
+`x ||> (|a| `{ … $a … })` is expanded at compile time, before staging: the piped argument (a stage-1 tree, not a code
+value) replaces every splice `$a` in the quoted body; the `_` sugar `x ||> f(_, y)` is first turned into such a macro
+lambda whose binder is the GENERATED name `__lambda_arg_<argument index>`. `substitute_macro_arg` looks at names only
+(it does not know binders); the pass is capture-free for nested pipes because it works bottom-up: the pipes inside the
+function part are expanded — their binders are gone — before the outer argument is inlined. -/
+
+def lambdaArgName (i : Nat) : String := "__lambda_arg_" ++ toString i
+
+def isPlaceholder : Ex → Bool
+  | .placeholder => true
+  | _ => false
+
+/-- parameters of the generated macro lambda: one per placeholder, named after its argument position -/
+def phParams (i : Nat) : List Ex → List String
+  | [] => []
+  | e :: rest => if isPlaceholder e then lambdaArgName i :: phParams (i + 1) rest else phParams (i + 1) rest
+
+mutual
+/-- `convert_placeholder` -/
+def convPlaceholder : Ex → Ex
+  | .placeholder => .var "_"
+  | .app f args =>
+    if args.any isPlaceholder then
+      .lam (phParams 0 args) (.bracket (.app (convPlaceholder f) (phArgs 0 args)))
+    else .app (convPlaceholder f) (convPlaceholderL args)
+  | .lam ps b => .lam ps (convPlaceholder b)
+  | .letE x v b => .letE x (convPlaceholder v) (convPlaceholder b)
+  | .letT xs v b => .letT xs (convPlaceholder v) (convPlaceholder b)
+  | .letrec x v b => .letrec x (convPlaceholder v) (convPlaceholder b)
+  | .ite c t e => .ite (convPlaceholder c) (convPlaceholder t) (convPlaceholder e)
+  | .thenE a b => .thenE (convPlaceholder a) (convPlaceholder b)
+  | .assign l r => .assign (convPlaceholder l) (convPlaceholder r)
+  | .tup es => .tup (convPlaceholderL es)
+  | .proj e i => .proj (convPlaceholder e) i
+  | .arr es => .arr (convPlaceholderL es)
+  | .block e => .block (convPlaceholder e)
+  | .feed x e => .feed x (convPlaceholder e)
+  | .bracket e => .bracket (convPlaceholder e)
+  | .escape e => .escape (convPlaceholder e)
+  | .macroExpand f args => .macroExpand (convPlaceholder f) (convPlaceholderL args)
+  | .pipeM a f => .pipeM (convPlaceholder a) (convPlaceholder f)
+  | .flt b => .flt b
+  | .int i => .int i
+  | .str s => .str s
+  | .selfL => .selfL
+  | .now => .now
+  | .sr => .sr
+  | .var x => .var x
+def convPlaceholderL : List Ex → List Ex
+  | [] => []
+  | e :: es => convPlaceholder e :: convPlaceholderL es
+/-- the arguments of a call that has placeholders: `_` at position `i` becomes the splice `$__lambda_arg_i` -/
+def phArgs (i : Nat) : List Ex → List Ex
+  | [] => []
+  | e :: rest => (if isPlaceholder e then .escape (.var (lambdaArgName i)) else convPlaceholder e) :: phArgs (i + 1) rest
+end
+
+mutual
+/-- `substitute_macro_arg`: every splice `$target` becomes `rep` — by name, under any binder -/
+def substMacroArg (target : String) (rep : Ex) : Ex → Ex
+  | .escape e => match e with
+    | .var x => if x = target then rep else .escape (.var x)
+    | e => .escape (substMacroArg target rep e)
+  | .app f args => .app (substMacroArg target rep f) (substMacroArgL target rep args)
+  | .lam ps b => .lam ps (substMacroArg target rep b)
+  | .letE x v b => .letE x (substMacroArg target rep v) (substMacroArg target rep b)
+  | .letT xs v b => .letT xs (substMacroArg target rep v) (substMacroArg target rep b)
+  | .letrec x v b => .letrec x (substMacroArg target rep v) (substMacroArg target rep b)
+  | .ite c t e => .ite (substMacroArg target rep c) (substMacroArg target rep t) (substMacroArg target rep e)
+  | .thenE a b => .thenE (substMacroArg target rep a) (substMacroArg target rep b)
+  | .assign l r => .assign (substMacroArg target rep l) (substMacroArg target rep r)
+  | .tup es => .tup (substMacroArgL target rep es)
+  | .proj e i => .proj (substMacroArg target rep e) i
+  | .arr es => .arr (substMacroArgL target rep es)
+  | .block e => .block (substMacroArg target rep e)
+  | .feed x e => .feed x (substMacroArg target rep e)
+  | .bracket e => .bracket (substMacroArg target rep e)
+  | .macroExpand f args => .macroExpand (substMacroArg target rep f) (substMacroArgL target rep args)
+  | .pipeM a f => .pipeM (substMacroArg target rep a) (substMacroArg target rep f)
+  | .placeholder => .placeholder
+  | .flt b => .flt b
+  | .int i => .int i
+  | .str s => .str s
+  | .selfL => .selfL
+  | .now => .now
+  | .sr => .sr
+  | .var x => .var x
+def substMacroArgL (target : String) (rep : Ex) : List Ex → List Ex
+  | [] => []
+  | e :: es => substMacroArg target rep e :: substMacroArgL target rep es
+end
+
+/-- one pipe step once argument and function are converted -/
+def pipeStep (arg fn : Ex) : Ex :=
+  match fn with
+  | .lam [p] (.bracket inner) => substMacroArg p arg inner
+  | _ => .app fn [arg]
+
+mutual
+/-- `convert_macro_pipe` (the pinned order: argument and function first, then the substitution) -/
+def convMacroPipe : Ex → Ex
+  | .pipeM a f => pipeStep (convMacroPipe a) (convMacroPipe f)
+  | .app f args => .app (convMacroPipe f) (convMacroPipeL args)
+  | .lam ps b => .lam ps (convMacroPipe b)
+  | .letE x v b => .letE x (convMacroPipe v) (convMacroPipe b)
+  | .letT xs v b => .letT xs (convMacroPipe v) (convMacroPipe b)
+  | .letrec x v b => .letrec x (convMacroPipe v) (convMacroPipe b)
+  | .ite c t e => .ite (convMacroPipe c) (convMacroPipe t) (convMacroPipe e)
+  | .thenE a b => .thenE (convMacroPipe a) (convMacroPipe b)
+  | .assign l r => .assign (convMacroPipe l) (convMacroPipe r)
+  | .tup es => .tup (convMacroPipeL es)
+  | .proj e i => .proj (convMacroPipe e) i
+  | .arr es => .arr (convMacroPipeL es)
+  | .block e => .block (convMacroPipe e)
+  | .feed x e => .feed x (convMacroPipe e)
+  | .bracket e => .bracket (convMacroPipe e)
+  | .escape e => .escape (convMacroPipe e)
+  | .macroExpand f args => .macroExpand (convMacroPipe f) (convMacroPipeL args)
+  | .placeholder => .placeholder
+  | .flt b => .flt b
+  | .int i => .int i
+  | .str s => .str s
+  | .selfL => .selfL
+  | .now => .now
+  | .sr => .sr
+  | .var x => .var x
+def convMacroPipeL : List Ex → List Ex
+  | [] => []
+  | e :: es => convMacroPipe e :: convMacroPipeL es
+end
+
+mutual
+/-- the OTHER order (not the compiler's): inline the outer argument first, expand the pipes of the resulting body
+afterwards. Needs fuel (the recursion is on the substituted tree). Used only to show that the order matters. -/
+def convMacroPipeTD (fuel : Nat) (e : Ex) : Ex :=
+  match fuel with
+  | 0 => e
+  | fuel + 1 =>
+    match e with
+    | .pipeM a f =>
+      let a' := convMacroPipeTD fuel a
+      match f with
+      | .lam [p] (.bracket inner) => convMacroPipeTD fuel (substMacroArg p a' inner)
+      | _ => .app (convMacroPipeTD fuel f) [a']
+    | .app f args => .app (convMacroPipeTD fuel f) (convMacroPipeTDL fuel args)
+    | .lam ps b => .lam ps (convMacroPipeTD fuel b)
+    | .letE x v b => .letE x (convMacroPipeTD fuel v) (convMacroPipeTD fuel b)
+    | .letT xs v b => .letT xs (convMacroPipeTD fuel v) (convMacroPipeTD fuel b)
+    | .letrec x v b => .letrec x (convMacroPipeTD fuel v) (convMacroPipeTD fuel b)
+    | .ite c t e => .ite (convMacroPipeTD fuel c) (convMacroPipeTD fuel t) (convMacroPipeTD fuel e)
+    | .thenE a b => .thenE (convMacroPipeTD fuel a) (convMacroPipeTD fuel b)
+    | .assign l r => .assign (convMacroPipeTD fuel l) (convMacroPipeTD fuel r)
+    | .tup es => .tup (convMacroPipeTDL fuel es)
+    | .proj e i => .proj (convMacroPipeTD fuel e) i
+    | .arr es => .arr (convMacroPipeTDL fuel es)
+    | .block e => .block (convMacroPipeTD fuel e)
+    | .feed x e => .feed x (convMacroPipeTD fuel e)
+    | .bracket e => .bracket (convMacroPipeTD fuel e)
+    | .escape e => .escape (convMacroPipeTD fuel e)
+    | .macroExpand f args => .macroExpand (convMacroPipeTD fuel f) (convMacroPipeTDL fuel args)
+    | e => e
+def convMacroPipeTDL (fuel : Nat) (es : List Ex) : List Ex :=
+  match fuel with
+  | 0 => es
+  | fuel + 1 =>
+    match es with
+    | [] => []
+    | e :: es => convMacroPipeTD fuel e :: convMacroPipeTDL fuel es
+end
+
 mutual
 /-- `convert_macroexpand`: `f!(a…)` becomes `$(f(a…))` -/
 def convMacro : Ex → Ex
@@ -95,6 +270,8 @@ def convMacro : Ex → Ex
   | .feed x e => .feed x (convMacro e)
   | .bracket e => .bracket (convMacro e)
   | .escape e => .escape (convMacro e)
+  | .pipeM a f => .pipeM (convMacro a) (convMacro f)
+  | .placeholder => .placeholder
   | .flt b => .flt b
   | .int i => .int i
   | .str s => .str s
@@ -180,6 +357,10 @@ def convSelf (ctx : Option Nat) : Ex → Option (Ex × Bool)
     match convSelf ctx f, convSelfL ctx args with
     | some (f', a), some (args', b) => some (.macroExpand f' args', a || b)
     | _, _ => none
+  | .pipeM a f =>
+    match convSelf ctx a, convSelf ctx f with
+    | some (a', x), some (f', y) => some (.pipeM a' f', x || y)
+    | _, _ => none
   | e => some (e, false)
 def convSelfL (ctx : Option Nat) : List Ex → Option (List Ex × Bool)
   | [] => some ([], false)
@@ -230,6 +411,8 @@ def trCode : Ex → Ex
   | .feed x e => ap "code_feed" [.str x, trCode e]
   | .block e => ap "code_block" [trCode e]
   | .macroExpand f args => .macroExpand f args         -- "desugared-only node in translate_code": left as is
+  | .pipeM a f => .pipeM a f                            -- (never reaches staging: removed by the front end)
+  | .placeholder => .placeholder
 def trCodeL : List Ex → List Ex
   | [] => []
   | e :: es => trCode e :: trCodeL es
@@ -258,6 +441,8 @@ def trStage0 : Ex → Ex
   | .sr => .sr
   | .var x => .var x
   | .macroExpand f args => .macroExpand f args
+  | .pipeM a f => .pipeM a f
+  | .placeholder => .placeholder
 def trStage0L : List Ex → List Ex
   | [] => []
   | e :: es => trStage0 e :: trStage0L es
@@ -274,6 +459,8 @@ def fillWith (h : Ex → Option Ex) : Ex → Option Ex
   | .escape m => h m
   | .bracket e => do let e' ← fillWith h e; pure (.block e')
   | .macroExpand _ _ => none
+  | .pipeM _ _ => none
+  | .placeholder => none
   | .flt b => some (.flt b)
   | .int i => some (.int i)
   | .str s => some (.str s)
@@ -534,6 +721,8 @@ def ev0 (fuel : Nat) (env : Env0) (e : Ex) : R0 V0 :=
     | .bracket _ => .error "quote left after translation"
     | .escape _ => .error "splice at macro stage"
     | .macroExpand _ _ => .error "macro call left after conversion"
+    | .pipeM _ _ => .error "macro pipe left after conversion"
+    | .placeholder => .error "placeholder left after conversion"
 def ev0L (fuel : Nat) (env : Env0) (es : List Ex) : R0 (List V0) :=
   match fuel with
   | 0 => .error "fuel"
@@ -563,7 +752,8 @@ def apply0 (fuel : Nat) (f : V0) (vs : List V0) : R0 V0 :=
 end
 
 /-- the front-end passes between parsing and staging -/
-def frontEnd (src : Ex) : Option Ex := (convSelf none (convMacro src)).map (·.1)
+def frontEnd (src : Ex) : Option Ex :=
+  (convSelf none (convMacro (convMacroPipe (convPlaceholder src)))).map (·.1)
 
 /-- `wrap_to_staged_expr` + `translate_staging::translate` + stage-0 execution: the stage-1 tree the compiler goes on with -/
 def expandWith (fuel : Nat) (e : Ex) : R0 Ex :=
